@@ -57,6 +57,23 @@ func init() {
 }
 
 func init() {
+	// sort.SliceStable: the real stable_func SSA with an interpreter swapper (as sort.Slice)
+	externals["sort.SliceStable"] = func(fr *frame, args []value) value {
+		sl := args[0].(iface).v.([]value)
+		less := args[1]
+		swap := &extClosure{fn: func(a []value) value {
+			i, j := a[0].(int), a[1].(int)
+			sl[i], sl[j] = sl[j], sl[i]
+			return nil
+		}}
+		pkg := fr.i.prog.ImportedPackage("sort")
+		fn := pkg.Func("stable_func")
+		call(fr.i, fr, 0, fn, []value{structure{less, swap}, len(sl)})
+		return nil
+	}
+}
+
+func init() {
 	externals["math.Floor"] = func(fr *frame, a []value) value {
 		if f, ok := a[0].(symFloat); ok {
 			if f.stage == "log2p1" {
